@@ -152,12 +152,15 @@ CLAIMED = {
             'serial reference with float32 emulation; projected grids (pyproj) out of scope', 'DESIGN.md section 4 C20'),
     'C08': ('A', 'model_checking',
             'bounded-exhaustive enumeration of generated CAMx files through read/write/read/write on the real code',
-            'Every descriptor of the binary universe (8 formats; species sets, all grid shapes up to 3x3x3, 1-5 steps, '
-            '7 start instants crossing day/year/leap-day/century, 8 payload kinds incl. -0.0, denormal and float32 max, '
-            '4 NAME variants, nz=0 headers, 8-byte wind headers; 510 files quick, ~25 k thorough) is reference-encoded, '
-            'read, written, re-read and written again: second read == first read bit for bit (data, TFLAG/ETFLAG, '
-            'species order, grid header), second write byte-identical to the first, time flags == encoded instants.',
-            'starts from reference-encoded files; land-use and cloud/rain files are not generated', 'DESIGN.md section 4 C08'),
+            'Every descriptor of the binary universe (10 formats incl. cloud/rain in its 3- and 5-variable flavours and '
+            'land-use in old / LUCAT11 / LUCAT26 style with every combination of optional LAI/TOPO records; species '
+            'sets, all grid shapes up to 3x3x3, 1-5 steps, 7 start instants crossing day/year/leap-day/century, 8 '
+            'payload kinds incl. -0.0, denormal and float32 max, 4 NAME variants, nz=0 headers, 8-byte wind headers; '
+            '651 files quick, ~27 k thorough) is reference-encoded, read, written, re-read and written again: second '
+            'read == first read bit for bit (data, TFLAG/ETFLAG, species order, grid header), second write '
+            'byte-identical to the first, time flags == encoded instants; the same content built in memory '
+            '(non-contiguous arrays, no ETFLAG) is written, read back == source, and rewritten byte-identically.',
+            'starts from reference-encoded files and from hand-built in-memory files', 'DESIGN.md section 4 C08'),
     'C09': ('A', 'model_checking',
             'bounded-exhaustive enumeration of generated files through an independent struct-level codec in both directions',
             'Same universe as C08. Direction 1: every reference-encoded file (also little-endian for uamiv) is read '
@@ -177,11 +180,14 @@ CLAIMED = {
             'only what both readers define is compared (record readers define no TFLAG)', 'DESIGN.md section 4 C13'),
     'C14': ('D', 'fault_enumeration',
             'exhaustive crash-point enumeration: every byte prefix of every generated file opened by the real readers',
-            'For 37 (quick) / ~250 (thorough) generated files of 8 formats EVERY proper byte prefix (36 k / 244 k cuts; '
+            'For ~65 (quick) / ~290 (thorough) generated files of 10 formats (incl. cloud/rain and land-use) EVERY '
+            'proper byte prefix (48 k / 278 k cuts; '
             'uamiv and lateral_boundary also in update mode r+) is opened with the memory-mapped reader and fully '
             'read: the outcome must be an exception or only complete steps bit-identical to the full file, same '
             'non-time dimensions; for the header-less met formats a cut on a record boundary inside the first step is a '
-            'valid shorter file and must show exactly those layers. Each read runs under a 0.5 s alarm.',
+            'valid shorter file and must show exactly those layers; a prefix that the reference decoder reads, with no '
+            'byte left over, as a complete land-use file or as a complete cloud/rain file of the other (3-variable) '
+            'flavour must be shown as exactly that file. Each read runs under a 0.5 s alarm.',
             'step completeness = all data records of the step present; bpch not generated (readers unusable under numpy 2)',
             'DESIGN.md section 4 C14'),
     'C18': ('A', 'model_checking',
